@@ -34,7 +34,7 @@ use compio_buf::{BufResult, IoBuf, IoBufMut, SetLen};
 use compio_driver::{DriverType, ProactorBuilder};
 use compio_io::{
     AsyncRead, AsyncReadManaged, AsyncReadMulti, AsyncWrite, AsyncWriteZerocopy,
-    ancillary::{AncillaryBuf, AsyncReadAncillary, AsyncWriteAncillary},
+    ancillary::{AncillaryBuf, AsyncReadAncillary, AsyncReadAncillaryMulti, AsyncWriteAncillary},
 };
 use compio_net::{TcpListener, TcpStream, UdpSocket, UnixListener, UnixStream};
 use compio_runtime::Runtime;
@@ -584,6 +584,50 @@ async fn drain_multi<R: AsyncReadMulti + AsyncReadManaged<Buffer = compio_driver
     (got, ended, last_err)
 }
 
+/// like `drain_multi` for `read_multi_with_ancillary(clen)`; this flavour has no end token: an item with
+/// empty data is the end of the stream
+async fn drain_multi_anc<R: AsyncReadAncillaryMulti<Return = compio_driver::op::RecvMsgMultiResult>>(
+    r: &mut R,
+    clen: usize,
+    pending: usize,
+    ex: &RefCell<Exec>,
+) -> (Vec<u8>, bool, Option<String>) {
+    let mut got: Vec<u8> = vec![];
+    let mut ended = false;
+    let mut errs = 0;
+    let mut last_err = None;
+    let mut s = std::pin::pin!(r.read_multi_with_ancillary(clen));
+    while got.len() < pending || (pending == 0 && !ended) {
+        match compio_runtime::time::timeout(Duration::from_secs(3), s.next()).await {
+            Err(_) => {
+                last_err = Some("err:timeout".to_string());
+                break;
+            }
+            Ok(None) => {
+                ended = true;
+                break;
+            }
+            Ok(Some(Ok(item))) => {
+                errs = 0;
+                if item.data().is_empty() {
+                    ended = true;
+                    break;
+                }
+                got.extend_from_slice(item.data());
+            }
+            Ok(Some(Err(e))) => {
+                errs += 1;
+                if e.kind() != io::ErrorKind::ResourceBusy || errs > 16 {
+                    last_err = Some(err_str(&e));
+                    break;
+                }
+                ex.borrow_mut().tag("multi-enobufs");
+            }
+        }
+    }
+    (got, ended, last_err)
+}
+
 async fn lock_stream(case: &Case, tp: &str, ex: &RefCell<Exec>, caps: &RefCell<Caps>) -> Vec<String> {
     let (a, b) = stream_pair(tp).await;
     let mut w = StreamWorld { peers: [Peer::Whole(a), Peer::Whole(b)], queue: [VecDeque::new(), VecDeque::new()], shut: [false, false] };
@@ -684,7 +728,7 @@ async fn lock_stream(case: &Case, tp: &str, ex: &RefCell<Exec>, caps: &RefCell<C
                     }
                 }
             }
-            "mrecv" => {
+            "mrecv" | "mrecva" => {
                 let p = pidx(f[1]);
                 let d = 1 - p;
                 let pending = w.queue[d].len();
@@ -692,8 +736,13 @@ async fn lock_stream(case: &Case, tp: &str, ex: &RefCell<Exec>, caps: &RefCell<C
                     "idle".to_string()
                 } else {
                     let len: usize = f[2].parse().unwrap();
-                    ex.borrow_mut().tag("recv-multi");
-                    let (got, ended, last_err) = on!(w.peers[p].r(), s => { let mut s = s; drain_multi(&mut s, len, pending, ex).await });
+                    let anc = f[0] == "mrecva";
+                    ex.borrow_mut().tag(if anc { "recv-multi-ancillary" } else { "recv-multi" });
+                    let (got, ended, last_err) = if anc {
+                        on!(w.peers[p].r(), s => { let mut s = s; drain_multi_anc(&mut s, len, pending, ex).await })
+                    } else {
+                        on!(w.peers[p].r(), s => { let mut s = s; drain_multi(&mut s, len, pending, ex).await })
+                    };
                     let exp: Vec<u8> = w.queue[d].iter().take(got.len()).copied().collect();
                     if exp != got || (got.len() < pending && last_err.is_none()) {
                         ex.borrow_mut().fail("C14:stream-mismatch", format!("{line}: multishot stream delivered {} of {pending} bytes: {} vs {}", got.len(), hex(&got), hex(&exp)));
@@ -839,7 +888,30 @@ async fn dsend(sock: &UdpSocket, to: Option<std::net::SocketAddr>, kind: &str, c
 
 type DRecv = io::Result<(usize, Vec<Mem>, Option<std::net::SocketAddr>, Option<(usize, usize, u32)>)>;
 
+/// `recv_msg` / `recv_msg_vectored` with a control buffer of `N` bytes (unaligned sizes included)
+async fn drecv_msg<const N: usize>(sock: &UdpSocket, vectored: bool, mut mems: Vec<Mem>) -> DRecv {
+    if vectored {
+        let BufResult(r, (m, c)) = sock.recv_msg_vectored(mems, AncillaryBuf::<N>::new()).await;
+        r.map(|(n, cl, a, fl)| (n, m, Some(a), Some((cl, c.as_init().len(), fl.bits() as u32))))
+    } else {
+        let BufResult(r, (m, c)) = sock.recv_msg(mems.pop().unwrap(), AncillaryBuf::<N>::new()).await;
+        r.map(|(n, cl, a, fl)| (n, vec![m], Some(a), Some((cl, c.as_init().len(), fl.bits() as u32))))
+    }
+}
+
 async fn drecv_call(sock: &UdpSocket, kind: &str, mut mems: Vec<Mem>) -> DRecv {
+    // `msg:<cap>` / `msgvec:<cap>` choose the control buffer size
+    if let Some((k, cap)) = kind.split_once(':') {
+        let v = k == "msgvec";
+        return match cap {
+            "1" => drecv_msg::<1>(sock, v, mems).await,
+            "13" => drecv_msg::<13>(sock, v, mems).await,
+            "20" => drecv_msg::<20>(sock, v, mems).await,
+            "33" => drecv_msg::<33>(sock, v, mems).await,
+            "64" => drecv_msg::<64>(sock, v, mems).await,
+            other => panic!("bad control capacity {other}"),
+        };
+    }
     match kind {
         "plain" => {
             let BufResult(r, m) = sock.recv(mems.pop().unwrap()).await;
